@@ -102,7 +102,10 @@ func permsFor(seed int64) string {
 func (w *world) exec(op string) (res string) {
 	defer func() {
 		if r := recover(); r != nil {
-			res = "crash"
+			res = "crash:" + strings.ReplaceAll(fmt.Sprint(r), "\n", " ")
+			if strings.Contains(res, "nil pointer dereference") {
+				res = "crash:nil-host-dereference"
+			}
 			if os.Getenv("VERIF_DEBUG") != "" {
 				fmt.Fprintf(os.Stderr, "crash on %q: %v\n", op, r)
 			}
@@ -235,11 +238,44 @@ func (w *world) exec(op string) (res string) {
 				return "inf"
 			}
 		}
+		if limit >= 1000 {
+			if v := w.oracle(got); v != "" {
+				return "crash:property violated on the real code: " + v + " offered=" + w.showIDs(got)
+			}
+		}
 		return w.showIDs(got)
 	case "race":
 		return "ok"
 	}
 	return "bad-op"
+}
+
+// oracle checks the property itself on a fully drained sequence of the real iterator: only up hosts,
+// every up host of the policy's lists, and (bare round-robin based policies) no host twice.
+func (w *world) oracle(got []*gocql.HostInfo) string {
+	seen := map[*gocql.HostInfo]int{}
+	for _, h := range got {
+		if !h.IsUp() {
+			return "down host offered"
+		}
+		seen[h]++
+	}
+	layers, _, isTA := gocql.VerifPolicyLists(w.pol)
+	for _, l := range layers {
+		for _, h := range l {
+			if h != nil && h.IsUp() && seen[h] == 0 {
+				return "up host not offered"
+			}
+		}
+	}
+	if !isTA {
+		for _, n := range seen {
+			if n > 1 {
+				return "host offered twice"
+			}
+		}
+	}
+	return ""
 }
 
 func newTA(fb gocql.HostSelectionPolicy, shuffle, nonlocal bool) gocql.HostSelectionPolicy {
